@@ -54,8 +54,9 @@ Definition iwf (s : st) (ci : citem) : Prop :=
   | _ => True
   end.
 
+(* the call kept inside a Ret: a Ready call to the actor the Ret names, not handed to any queue yet *)
 Definition tgt_is (ci : citem) (a : N) : Prop :=
-  match ci_kind ci with KMeth a' _ _ => a' = a | _ => False end.
+  match ci_kind ci with KMeth a' _ _ => a' = a | _ => False end /\ ci_sq ci = None.
 
 Definition nwf (s : st) (n : node) : Prop :=
   match n with NItem ci => iwf s ci | NHeld a ci => tgt_is ci a end.
@@ -503,9 +504,9 @@ Proof.
     + destruct (handle_actor v) as [p|].
       * destruct (inst_call c (fun b => KMeth p b None) (ref_clone s p)) as [ci s2] eqn:I.
         intros E; inversion E; subst.
-        destruct (inst_call_wf _ _ _ _ _ (Q_ref_clone _ p H) I) as (H2 & L2 & C2 & K2 & _).
+        destruct (inst_call_wf _ _ _ _ _ (Q_ref_clone _ p H) I) as (H2 & L2 & C2 & K2 & Q2).
         split; auto. split; [eapply sle_trans; [apply sle_ref_clone | exact L2]|].
-        unfold rwf, nsf. simpl. constructor; [|exact C2]. simpl. unfold tgt_is. rewrite K2. reflexivity.
+        unfold rwf, nsf. simpl. constructor; [|exact C2]. simpl. unfold tgt_is. rewrite K2. split; [reflexivity | exact Q2].
       * intros E; inversion E; subst. split; [apply Q_emit; auto|]. split; [apply sle_emit | constructor].
     + intros E; inversion E; subst. split; [apply Q_emit; auto|]. split; [apply sle_emit | constructor].
   - intros E; inversion E; subst. split; auto. split; [apply sle_refl | constructor].
@@ -702,19 +703,19 @@ Proof.
       * unfold vwf. simpl. eapply nsf_mono; [|exact L1]. eapply sle_trans; [apply sle_same; eauto | apply sle_emit].
     + destruct (lookup s ht) as [v|]; [|apply res_bad; auto]. destruct (handle_actor v) as [a|]; [|apply res_bad; auto].
       destruct (inst_call c _ (ref_clone s a)) as [ci s2] eqn:I.
-      destruct (inst_call_wf _ _ _ _ _ (Q_ref_clone _ a H) I) as (H2 & L2 & C2 & K2 & _).
+      destruct (inst_call_wf _ _ _ _ _ (Q_ref_clone _ a H) I) as (H2 & L2 & C2 & K2 & Q2).
       intros E. eapply res_bind; [| | |exact E].
       * eapply sle_trans; [apply sle_ref_clone|]. eapply sle_trans; [exact L2|]. eapply sle_trans; apply sle_emit.
       * apply Q_emit, Q_emit; auto.
-      * unfold vwf, nsf. simpl. constructor; [simpl; unfold tgt_is; rewrite K2; reflexivity|].
+      * unfold vwf, nsf. simpl. constructor; [simpl; unfold tgt_is; rewrite K2; split; [reflexivity | exact Q2]|].
         eapply nsf_mono; [|exact C2]. eapply sle_trans; apply sle_emit.
     + destruct (lookup s ht) as [v|]; [|apply res_bad; auto]. destruct (handle_actor v) as [a|]; [|apply res_bad; auto].
       destruct (inst_call c _ (ref_clone s a)) as [ci s2] eqn:I.
-      destruct (inst_call_wf _ _ _ _ _ (Q_ref_clone _ a H) I) as (H2 & L2 & C2 & K2 & _).
+      destruct (inst_call_wf _ _ _ _ _ (Q_ref_clone _ a H) I) as (H2 & L2 & C2 & K2 & Q2).
       intros E. eapply res_bind; [| | |exact E].
       * eapply sle_trans; [apply sle_ref_clone|]. eapply sle_trans; [exact L2|]. eapply sle_trans; apply sle_emit.
       * apply Q_emit, Q_emit; auto.
-      * unfold vwf, nsf. simpl. constructor; [simpl; unfold tgt_is; rewrite K2; reflexivity|].
+      * unfold vwf, nsf. simpl. constructor; [simpl; unfold tgt_is; rewrite K2; split; [reflexivity | exact Q2]|].
         eapply nsf_mono; [|exact C2]. eapply sle_trans; apply sle_emit.
   - (* ARetSend *) destruct (lookup s h) as [[a|a|a|[rid rk]|f|t sc]|] eqn:LK; try (apply res_bad; auto).
     destruct (take s h) as [o s1] eqn:T. destruct (take_wf _ _ _ _ H T) as (H1 & N1 & T1 & _).
@@ -787,7 +788,7 @@ Qed.
 
 Lemma cwf_as_call s a ci arg : cwf s ci -> tgt_is ci a -> cwf s (as_call a ci arg).
 Proof.
-  rewrite !cwf_iff. intros [[A B] C] T. destruct ci as [u c k caps q]. unfold tgt_is in T. simpl in *.
+  rewrite !cwf_iff. intros [[A B] C] [T _]. destruct ci as [u c k caps q]. simpl in *.
   destruct k; try contradiction. subst a0. split; auto. split; auto.
 Qed.
 
